@@ -128,12 +128,10 @@ impl WordMatch {
         requires w1.wfs(), w2.wfs(), w1.slice.1 <= w2.slice.0, w1.offset == self.offset || w2.offset == self.offset,
             self.subslice.0 == 0, self.subslice.1 <= w2.slice.1 - w1.slice.0, typos_ok(self.typos),
         ensures
-            ret is Some <==> w1.slice.0 + self.subslice.1 > w2.slice.0,
-            ret matches Some(p) ==> {
-                &&& p.0.wf_for(w1) && p.0.subslice.1 == w1.slice.1 - w1.slice.0 && p.0.fin
-                &&& p.1.wf_for(w2) && p.1.subslice.1 == self.subslice.1 - (w2.slice.0 - w1.slice.0) && p.1.fin == self.fin
-                &&& part_typos_ok(p.0.typos, self.typos) && part_typos_ok(p.1.typos, self.typos)
-            },
+            ret is Some <==> w1.slice.0 + self.subslice.1 > w2.slice.0, // [C14]
+            ret matches Some(p) ==> p.0.wf_for(w1) && p.1.wf_for(w2), // [C09 C02 C05 C01]
+            ret matches Some(p) ==> p.0.subslice.1 == w1.slice.1 - w1.slice.0 && p.0.fin && p.1.subslice.1 == self.subslice.1 - (w2.slice.0 - w1.slice.0) && p.1.fin == self.fin, // [C14 C09 C05 C08]
+            ret matches Some(p) ==> part_typos_ok(p.0.typos, self.typos) && part_typos_ok(p.1.typos, self.typos), // [C01 C08]
     {
         vassert(w2.slice.0 > w1.slice.0);
         vassert(w1.offset == self.offset || w2.offset == self.offset);
